@@ -16,6 +16,29 @@ use serde_json::{json, Value};
 const BTAG: i64 = 50;
 const CLONETAG: i64 = 20;
 
+macro_rules! with_nn {
+    ($na:expr, $nb:expr, $f:ident, $($a:expr),*) => {
+        match ($na, $nb) {
+            (0, 0) => $f::<0, 0>($($a),*),
+            (0, 2) => $f::<0, 2>($($a),*),
+            (2, 0) => $f::<2, 0>($($a),*),
+            (1, 1) => $f::<1, 1>($($a),*),
+            (1, 2) => $f::<1, 2>($($a),*),
+            (2, 1) => $f::<2, 1>($($a),*),
+            (2, 2) => $f::<2, 2>($($a),*),
+            (2, 3) => $f::<2, 3>($($a),*),
+            (3, 2) => $f::<3, 2>($($a),*),
+            (3, 3) => $f::<3, 3>($($a),*),
+            (2, 4) => $f::<2, 4>($($a),*),
+            (4, 2) => $f::<4, 2>($($a),*),
+            (3, 4) => $f::<3, 4>($($a),*),
+            (4, 3) => $f::<4, 3>($($a),*),
+            (4, 4) => $f::<4, 4>($($a),*),
+            other => panic!("capacity pair {other:?} is not instantiated in the harness"),
+        }
+    };
+}
+
 fn build_set<const N: usize>(lay: &Value, detour: bool) -> Box<Cage<Set<Key, N>>> {
     let mut cage = Cage::new(Set::<Key, N>::new());
     let a = lay.as_array().unwrap();
@@ -362,27 +385,184 @@ fn finish_pair(t: &Value, line: usize, mut fails: Vec<Fail>, drift: bool, rep: &
     }
 }
 
-macro_rules! with_nn {
-    ($na:expr, $nb:expr, $f:ident, $($a:expr),*) => {
-        match ($na, $nb) {
-            (0, 0) => $f::<0, 0>($($a),*),
-            (0, 2) => $f::<0, 2>($($a),*),
-            (2, 0) => $f::<2, 0>($($a),*),
-            (1, 1) => $f::<1, 1>($($a),*),
-            (1, 2) => $f::<1, 2>($($a),*),
-            (2, 1) => $f::<2, 1>($($a),*),
-            (2, 2) => $f::<2, 2>($($a),*),
-            (2, 3) => $f::<2, 3>($($a),*),
-            (3, 2) => $f::<3, 2>($($a),*),
-            (3, 3) => $f::<3, 3>($($a),*),
-            (2, 4) => $f::<2, 4>($($a),*),
-            (4, 2) => $f::<4, 2>($($a),*),
-            (3, 4) => $f::<3, 4>($($a),*),
-            (4, 3) => $f::<4, 3>($($a),*),
-            (4, 4) => $f::<4, 4>($($a),*),
-            other => panic!("capacity pair {other:?} is not instantiated in the harness"),
+// ------------------------------------------------------------------------------
+// C04 / C17 for the binary operations: a panic injected at every callback the code makes
+// (key ==, Clone in `-`, the fold closure), or every outcome of every key comparison.
+// Only safety is judged: operands untouched and intact, nothing destroyed twice, no dead
+// data used, the half-built result of `-` dropped cleanly.
+
+pub struct PairRun {
+    pub callbacks: u64,
+    pub eq_asked: usize,
+    pub fails: Vec<Fail>,
+}
+
+fn pair_safety_set<const NA: usize, const NB: usize>(t: &Value, prop: &'static str, panic_at: u64, script: Option<Vec<bool>>) -> PairRun {
+    ledger::reset();
+    let adversarial = script.is_some();
+    let build = |lay: &Value, cage: &mut dyn FnMut(Key)| {
+        for e in lay.as_array().unwrap() {
+            cage(Key::new(e[0].as_u64().unwrap() as crate::elem::Cls, e[1].as_u64().unwrap() as u8));
         }
     };
+    let mut ca = Cage::new(Set::<Key, NA>::new());
+    let mut cb = Cage::new(Set::<Key, NB>::new());
+    if adversarial {
+        ledger::with(|l| {
+            l.eq_script = Some(vec![]);
+            l.eq_default = false;
+            l.in_call = true;
+        });
+    }
+    build(&t["a"], &mut |k| {
+        ca.m.insert(k);
+    });
+    build(&t["b"], &mut |k| {
+        cb.m.insert(k);
+    });
+    ledger::with(|l| {
+        l.eq_script = None;
+        l.in_call = false;
+    });
+    let pre_a: Vec<u32> = ca.m.iter().map(|k| k.serial).collect();
+    let pre_b: Vec<u32> = cb.m.iter().map(|k| k.serial).collect();
+    let mut ctx = Ctx::new(true);
+    ledger::mark();
+    ledger::with(|l| {
+        l.panic_at = panic_at;
+        l.eq_script = script;
+        l.eq_default = false;
+    });
+    let op = &t["o"];
+    let (a, b) = (&ca.m, &cb.m);
+    match op["name"].as_str().unwrap() {
+        "eq" => {
+            let _ = call(&mut ctx, || a == b);
+            let _ = call(&mut ctx, || b == a);
+            let _ = call(&mut ctx, || a != b);
+        }
+        "pred" => {
+            let _ = match op["p"].as_str().unwrap() {
+                "is_subset" => call(&mut ctx, || a.is_subset(b)),
+                "is_superset" => call(&mut ctx, || a.is_superset(b)),
+                _ => call(&mut ctx, || a.is_disjoint(b)),
+            };
+        }
+        "algebra" => {
+            let n = op["n"].as_u64().unwrap() as usize;
+            fn drive<'x, I: Iterator<Item = &'x Key>>(ctx: &mut Ctx, mut it: I, n: usize) {
+                for _ in 0..n {
+                    match call(ctx, || it.next().map(|k| k.check("set algebra item"))) {
+                        Some(Some(_)) => {}
+                        _ => break,
+                    }
+                }
+                let _ = call(ctx, || {
+                    it.fold(0usize, |c, k| {
+                        k.check("set algebra item");
+                        let _s = ledger::Suspend::new();
+                        ledger::maybe_panic('g', 0, 0);
+                        c + 1
+                    })
+                });
+            }
+            match op["kind"].as_str().unwrap() {
+                "union" => drive(&mut ctx, a.union(b), n),
+                "intersection" => drive(&mut ctx, a.intersection(b), n),
+                "difference" => drive(&mut ctx, a.difference(b), n),
+                "symmetric_difference" => drive(&mut ctx, a.symmetric_difference(b), n),
+                _ => {}
+            }
+        }
+        "sub" => {
+            if let Some(d) = call(&mut ctx, || a - b) {
+                for k in d.iter() {
+                    k.check("element of a - b");
+                }
+                let _ = call(&mut ctx, || drop(d));
+            }
+        }
+        _ => {}
+    }
+    let (callbacks, eq_asked) = ledger::with(|l| {
+        l.panic_at = 0;
+        let asked = l.eq_pos;
+        l.eq_script = None;
+        (l.cb, asked)
+    });
+    let mut fails = vec![];
+    let post_a: Vec<u32> = ca.m.iter().map(|k| ko(k).serial).collect();
+    let post_b: Vec<u32> = cb.m.iter().map(|k| ko(k).serial).collect();
+    if post_a != pre_a || post_b != pre_b || !ca.intact() || !cb.intact() || ca.m.len() > NA || cb.m.len() > NB {
+        fails.push(Fail { props: prop.into(), msg: "an operand of a read-only binary operation was modified or memory outside it was written".into() });
+    }
+    drop(ctx);
+    drop(ca);
+    drop(cb);
+    for v in ledger::with(|l| l.viol.clone()) {
+        fails.push(Fail { props: prop.into(), msg: v });
+    }
+    PairRun { callbacks, eq_asked, fails }
+}
+
+pub fn run_pairs_sweep(path: &str, adversarial: bool, max_leaves: usize, rep: &mut Report) -> (u64, u64, u64) {
+    let text = std::fs::read_to_string(path).expect("cannot read table");
+    let prop = if adversarial { "C17" } else { "C04" };
+    let (mut cases, mut runs, mut maxcb) = (0u64, 0u64, 0u64);
+    for (idx, l) in text.lines().enumerate() {
+        if l.trim().is_empty() {
+            continue;
+        }
+        let t: Value = serde_json::from_str(l).expect("bad table line");
+        let na = t["na"].as_u64().unwrap() as usize;
+        let nb = t["nb"].as_u64().unwrap() as usize;
+        crate::progress(idx);
+        cases += 1;
+        if !adversarial {
+            let clean = with_nn!(na, nb, pair_safety_set, &t, prop, 0, None);
+            runs += 1;
+            maxcb = maxcb.max(clean.callbacks);
+            for f in &clean.fails {
+                rep.add_fail(f, &t, idx, "binary operation, no panic injected");
+            }
+            for k in 1..=clean.callbacks.min(200) {
+                let out = with_nn!(na, nb, pair_safety_set, &t, prop, k, None);
+                runs += 1;
+                for f in &out.fails {
+                    let mut tt = t.clone();
+                    tt["inject"] = json!({"callback": k, "site": format!("{}|pair", t["o"]["name"].as_str().unwrap_or(""))});
+                    rep.add_fail(f, &tt, idx, &format!("panic injected into user callback {k} of a binary operation"));
+                }
+            }
+        } else {
+            let mut stack: Vec<Vec<bool>> = vec![vec![]];
+            let mut leaves = 0usize;
+            while let Some(script) = stack.pop() {
+                if leaves >= max_leaves {
+                    break;
+                }
+                let out = with_nn!(na, nb, pair_safety_set, &t, prop, 0, Some(script.clone()));
+                leaves += 1;
+                runs += 1;
+                maxcb = maxcb.max(out.eq_asked as u64);
+                for f in &out.fails {
+                    let mut tt = t.clone();
+                    tt["eq_script"] = json!(script);
+                    rep.add_fail(f, &tt, idx, "scripted (lying) key comparisons in a binary operation");
+                }
+                let asked = out.eq_asked.min(20);
+                for p in (script.len()..asked).rev() {
+                    let mut s2 = script.clone();
+                    s2.resize(p, false);
+                    s2.push(true);
+                    stack.push(s2);
+                }
+            }
+        }
+        *rep.op_counts.entry(format!("pair:{}", t["o"]["name"].as_str().unwrap_or(""))).or_insert(0) += 1;
+        rep.edges += 1;
+    }
+    (cases, runs, maxcb)
 }
 
 pub fn run_pairs(path: &str, set_mode: bool, rep: &mut Report) {
